@@ -106,6 +106,7 @@ structure ImplLine where
   rx : List (Nat × String)
   cl : List Nat
   view : View
+  rbs : List (Nat × Nat)        -- read-buffer size per session
   sessions : List Nat
   unknownSessions : Bool
   regs : List (Option Nat)
@@ -130,8 +131,13 @@ def parseImpl (line : String) : Option ImplLine := do
   let regs := (listOf (← field toks "rg")).map fun e => match e.splitOn ">" with
     | [_, c] => c.toNat?
     | _ => none
+  let rbs := (ssRaw.filter (!·.startsWith "unknown")).filterMap fun e => match e.splitOn "." with
+    | [c, _, _, n] => match c.toNat?, n.toNat? with
+      | some a, some b => some (a, b)
+      | _, _ => none
+    | _ => none
   let fd ← (← field toks "fd").toNat?
-  pure { rx := rx, cl := cl, view := ss, sessions := ss.map (·.client), unknownSessions := unknown, regs := regs, fd := fd }
+  pure { rx := rx, cl := cl, view := ss, rbs := rbs, sessions := ss.map (·.client), unknownSessions := unknown, regs := regs, fd := fd }
 
 /-! ### the machine -/
 
@@ -144,6 +150,7 @@ structure St where
   selfClosed : List Nat := []      -- clients that closed their own socket (they cannot observe a closure)
   implView : View := []            -- pairing table of the implementation's previous line
   implConnected : List Nat := []   -- clients connected as far as the ops and the implementation's lines say
+  pending : List (Nat × Bytes) := []  -- per client: bytes it sent that the implementation still holds unconsumed
   deriving Inhabited
 
 inductive Op where
@@ -171,8 +178,25 @@ def eventsOf : Op → List Event
   | .hup k => [.err k]
   | .nop => []
 
+def pendingOf (pending : List (Nat × Bytes)) (k : Nat) : Bytes := (pending.lookup k).getD []
+
+/-- what client `k` has sent and the implementation has not consumed, after this op (its own `ss=` says how
+    many bytes sit in the read buffer) -/
+def updatePending (pending : List (Nat × Bytes)) (op : Op) (l : ImplLine) : List (Nat × Bytes) :=
+  match op with
+  | .snd k p =>
+    let stream := pendingOf pending k ++ p
+    let rest := pending.filter (·.1 != k)
+    match l.rbs.lookup k with
+    | some n => if l.view.isBridged k then rest else (k, stream.drop (stream.length - n)) :: rest
+    | none => rest
+  | _ => pending.filter fun e => l.sessions.contains e.1
+
+/-- the bytes after the first newline (the relay's announcement line) -/
+def afterFirstLine (bs : Bytes) : Bytes := (bs.dropWhile (· != 10)).drop 1
+
 /-- C25 clauses, judged on the implementation's own lines -/
-def judgeC25 (before : View) (op : Op) (l : ImplLine) : String :=
+def judgeC25 (before : View) (pending : List (Nat × Bytes)) (op : Op) (l : ImplLine) : String :=
   let o : Obs String := { rx := l.rx, closed := l.cl }
   if !decide (ClaimUnique l.view) then "viol:claim-unique:a peer is claimed by two connectors at once"
   else if !decide (Symmetric l.view) then "viol:pairing-symmetric:the pairing table is not symmetric"
@@ -183,6 +207,16 @@ def judgeC25 (before : View) (op : Op) (l : ImplLine) : String :=
         "viol:delivery:bytes of a bridged client did not reach exactly its partner, whole and in order"
       else if !decide (Isolation before l.view k o) then
         "viol:isolation:a client other than the sender's bridged partner received bytes"
+      else if !before.isBridged k && l.view.isBridged k then
+        -- the op that established k's bridge: the partner got everything k had pending, from the identity on
+        match l.view.partnerOf k with
+        | none => "ok"
+        | some t =>
+          match (l.rx.lookup t).bind fun r => if r.startsWith "#" then none else bytesOfHex r with
+          | none => "ok"                                     -- nothing readable (long payloads are hashed)
+          | some got =>
+            if decide (BridgeHandover 32 (pendingOf pending k ++ p) (afterFirstLine got)) then "ok"
+            else "viol:delivery:bytes sent with or after the identity did not all reach the new bridge partner"
       else "ok"
     | .eof k | .shw k | .rst k | .hup k =>
       if !decide (Teardown before k o) then "viol:teardown:the partner of a disconnected bridged client stays connected"
@@ -230,9 +264,10 @@ def step (which : Which) (st : St) (tok : List String) (_line : String) (impl : 
           | _ => st.implConnected
         let conn := conn0.filter fun c => !l.cl.contains c
         let verdict := match which with
-          | .c25 => judgeC25 st.implView op l
+          | .c25 => judgeC25 st.implView st.pending op l
           | .c26 => judgeC26 conn l
-        ({ σ := σ1, accepted := accepted, selfClosed := selfClosed, implView := l.view, implConnected := conn }, model, verdict)
+        ({ σ := σ1, accepted := accepted, selfClosed := selfClosed, implView := l.view, implConnected := conn,
+           pending := updatePending st.pending op l }, model, verdict)
 
 def machine (which : Which) : Machine St := { init := {}, step := step which }
 
